@@ -42,7 +42,10 @@ PROPS = {
 HIST_NOTE = LEAVES + "; histories of <= 20 (quick) / 40 (thorough) operations on <= 3 dimensions x 3 attributes in the correspondence, theorems unbounded"
 
 def _hist_prop(pid, modules, text, note=HIST_NOTE, configs=ONE):
-    PROPS[pid] = {"modules": modules, "campaigns": [hist(pid, configs)], "level_text": text, "level_note": note}
+    # the quick tier runs the default configuration; the thorough tier both (the second one is P-256 + ML-KEM-768)
+    PROPS[pid] = {"modules": modules, "campaigns": [hist(pid, BOTH)], "level_text": text, "level_note": note}
+    if configs == ONE:
+        PROPS[pid]["quick_configs"] = ONE
 
 _hist_prop("C03", ["CC.Props.C03", "CC.Props.NonVacuity"],
     "Lean theorems: along every history of the seven edit operations identifiers stay below a never-decreasing counter and a new attribute receives an identifier strictly greater than any ever in use (never reissued, deleted holders included); rename / disable keep identifier, hint and position; rights with different id sets differ; over every history: no operation alters an existing secret of a right (it removes the right, prepends newer secrets, or keeps the newest), a structure edit changes no secret and update_msk leaves the chain of every surviving right as it was (edits_keep_secrets, operations_never_alter_secrets), and every secret of every right involving a newly added attribute is drawn by the update that follows - nothing older can open it (new_attribute_inherits_nothing). Correspondence: random edit/update/keygen/refresh/encaps histories (delete-then-add, rename chains, dimension delete/re-add) with structure dumps, key dumps and the full decaps matrix compared between the real API and the model")
